@@ -410,6 +410,28 @@ func GenTrip(rng *rand.Rand, thorough bool, emit func(*Sx)) {
 			emit(RunTrip(TripCase{Cfg: cfg, LMTP: lmtp, Calls: calls, Extra: []*Sx{L(A("focus"), A("C16"))}}))
 		}
 	}
+	// long messages whose line ends sweep across every buffer boundary (4096-octet refills, the backend's
+	// read buffer), every line dot-stuffed: a line start missed anywhere leaves an extra '.' or loses the end
+	readSizes := [][]int{{4096}, {512}, {100}, {7}, {511, 1}}
+	for li, ll := range []int{5, 11, 13, 17, 29, 31, 61, 127} {
+		for ri, rs := range readSizes {
+			if !thorough && (li+ri)%2 != 0 {
+				continue
+			}
+			var body []byte
+			for len(body) < 9000 {
+				body = append(body, '.')
+				body = append(body, strings.Repeat("d", ll-(len(body)/97)%3)...)
+				body = append(body, '\r', '\n')
+			}
+			cfg := fullCfg(li%3 == 0)
+			p := DefaultPlan()
+			p.Sizes = rs
+			calls := []TripCall{{Kind: "mail", Arg: "s@x"}, {Kind: "rcpt", Arg: "r1@x"}, {Kind: "rcpt", Arg: "r2@x"},
+				{Kind: "data", Parts: [][]byte{body[:len(body)/3], body[len(body)/3:]}, Closes: 1}, {Kind: "noop"}, {Kind: "quit"}}
+			emit(RunTrip(TripCase{Cfg: cfg, Script: Script{Data: []DataPlan{p}}, LMTP: cfg.LMTP, Calls: calls, Extra: []*Sx{L(A("focus"), A("C16"))}}))
+		}
+	}
 	// many recipients, then a message
 	for _, nr := range []int{40, 90} {
 		cfg := fullCfg(false)
